@@ -211,7 +211,7 @@ pub fn run_target<T>(
         if op["c"] == "reset" {
             d = op["d"].as_u64().unwrap() as usize;
             let r = catch(AssertUnwindSafe(|| mk(d)));
-            let mut ev = json!({"t": "reset", "k": k, "tgt": target, "d": d});
+            let mut ev = json!({"t": "reset", "k": k, "tgt": target, "be": target, "d": d});
             match r {
                 Ok(t) => {
                     let obs = catch(AssertUnwindSafe(|| observe_small(&t, d, it, &[])));
@@ -231,7 +231,7 @@ pub fn run_target<T>(
         let Some(t) = tree.as_mut() else { continue };
         n += 1;
         let r = catch(AssertUnwindSafe(|| apply(t, op, mk, d)));
-        let mut ev = json!({"t": "op", "k": k, "tgt": target, "d": d, "op": op});
+        let mut ev = json!({"t": "op", "k": k, "tgt": target, "be": target, "d": d, "op": op});
         match r {
             Ok(Ok(())) => ev["res"] = json!("ok"),
             Ok(Err(e)) => {
